@@ -1075,3 +1075,32 @@ def check_fresh(sess: Session, run, key_prefix):
                 elif sig != info["type"]:
                     findings.append({"key": f"{key_prefix}:fresh:{name}", "what": f"typed value {name} appears as {sig} instead of {info['type']}", "kind": "typed-name", "closed": True})
     return findings
+
+
+def check_props(sess: Session, run, key_prefix):
+    """C09: static properties given in place(..., {props}) are applied to the entity at the user tile"""
+    findings = []
+    _zev, zref = sess.z3_pair()
+    try:
+        ref = zref(None, {"__default0__": True})
+    except RefError:
+        return findings
+    for (proto, x, y, props) in ref.places:
+        if not props:
+            continue
+        ents = sess.entity_at((proto, x, y))
+        if len(ents) != 1:
+            continue  # reported by check_places
+        raw = ents[0].raw
+        flat = dict(raw)
+        flat.update(raw.get("control_behavior") or {})
+        for k, v in props.items():
+            want = v.strip('"') if isinstance(v, str) else v
+            if k not in flat:
+                findings.append({"key": f"{key_prefix}:prop:{proto}@{x},{y}:{k}", "what": f"{proto} at ({x},{y}): static property {k}={want!r} is missing from the emitted entity", "kind": "prop-missing", "closed": True})
+                continue
+            got = flat[k]
+            ok = (bool(got) == bool(int(want))) if isinstance(got, bool) and str(want).lstrip("-").isdigit() else (str(got) == str(want))
+            if not ok:
+                findings.append({"key": f"{key_prefix}:prop:{proto}@{x},{y}:{k}", "what": f"{proto} at ({x},{y}): static property {k} is {got!r}, program says {want!r}", "kind": "prop-value", "closed": True})
+    return findings
